@@ -101,13 +101,28 @@ func JsonToSexp(json []byte, env *Zlisp) (Sexp, error) {
 	return GoToSexp(iface, env)
 }
 
+// MaxJsonDepth is the nesting depth to which SexpToJson (and SexpToMsgpack,
+// which encodes through it) follows arrays and hashes.
+const MaxJsonDepth = 10000
+
 // sexp -> json
 func SexpToJson(exp Sexp) string {
+	return sexpToJson(exp, 0)
+}
+
+// sexpToJson is SexpToJson at the given nesting depth. A value can contain
+// itself (see aset and hset), so the descent has a bound; beyond it the
+// encoder gives up the way jsonHashHelper does, with a panic that the
+// caller of the builtin turns into an error.
+func sexpToJson(exp Sexp, depth int) string {
+	if depth > MaxJsonDepth {
+		panic(fmt.Errorf("cannot encode values nested deeper than %d levels (a value that contains itself?)", MaxJsonDepth))
+	}
 	switch e := exp.(type) {
 	case *SexpHash:
-		return e.jsonHashHelper()
+		return e.jsonHashHelper(depth)
 	case *SexpArray:
-		return e.jsonArrayHelper()
+		return e.jsonArrayHelper(depth)
 	case *SexpSymbol:
 		return jsonQuote(e.name)
 	case *SexpStr:
@@ -153,7 +168,7 @@ func jsonKeyName(key Sexp) string {
 	return key.SexpString(nil)
 }
 
-func (hash *SexpHash) jsonHashHelper() string {
+func (hash *SexpHash) jsonHashHelper(depth int) string {
 	str := `{"Atype":` + jsonQuote(hash.TypeName) + `, `
 
 	ko := []string{}
@@ -172,7 +187,7 @@ func (hash *SexpHash) jsonHashHelper() string {
 		}
 		if err == nil {
 			str += keyst + `:`
-			str += string(SexpToJson(val)) + `, `
+			str += string(sexpToJson(val, depth+1)) + `, `
 		} else {
 			panic(err)
 		}
@@ -191,14 +206,14 @@ func (hash *SexpHash) jsonHashHelper() string {
 	return str
 }
 
-func (arr *SexpArray) jsonArrayHelper() string {
+func (arr *SexpArray) jsonArrayHelper(depth int) string {
 	if len(arr.Val) == 0 {
 		return "[]"
 	}
 
-	str := "[" + SexpToJson(arr.Val[0])
+	str := "[" + sexpToJson(arr.Val[0], depth+1)
 	for _, sexp := range arr.Val[1:] {
-		str += ", " + SexpToJson(sexp)
+		str += ", " + sexpToJson(sexp, depth+1)
 	}
 	return str + "]"
 }
